@@ -205,6 +205,8 @@ pub struct Drv<K: Kit> {
     pub last_call_first_read: Option<u64>,
     pub prm_build_secs: f64,
     pub pending_sample_budget: Option<u64>,
+    /// clock pacing for the next solve / construct_roadmap call (see `Log::tick_plan`)
+    pub pending_tick_plan: Option<Vec<u64>>,
 }
 
 pub const MS: u64 = 1_000_000;
@@ -231,6 +233,7 @@ impl<K: Kit> Drv<K> {
             last_call_first_read: None,
             prm_build_secs,
             pending_sample_budget: None,
+            pending_tick_plan: None,
         })
     }
 
@@ -269,6 +272,7 @@ impl<K: Kit> Drv<K> {
             l.worst_late_ns = 0;
             l.samples_in_call = 0;
             l.sample_budget = None;
+            l.tick_plan = None;
         }
         self.mark(Ev::Call(name));
         crate::watch::call_begin(name);
@@ -318,6 +322,7 @@ impl<K: Kit> Drv<K> {
     /// PRM only. The build time is the value given to `new` (seconds, virtual when armed).
     pub fn construct_roadmap(&mut self, virtual_clock: bool) -> Res {
         self.begin_call("construct_roadmap");
+        self.log.borrow_mut().tick_plan = self.pending_tick_plan.take();
         let reads0 = oxmpl::verif::reads();
         if virtual_clock {
             let now = oxmpl::verif::now_nanos().unwrap_or(0);
@@ -345,6 +350,7 @@ impl<K: Kit> Drv<K> {
     pub fn solve_ns(&mut self, timeout_ns: u64, virtual_clock: bool) -> Res {
         self.begin_call("solve");
         self.log.borrow_mut().sample_budget = self.pending_sample_budget.take();
+        self.log.borrow_mut().tick_plan = self.pending_tick_plan.take();
         let reads0 = oxmpl::verif::reads();
         if virtual_clock {
             let now = oxmpl::verif::now_nanos().unwrap_or(0);
@@ -385,6 +391,26 @@ impl<K: Kit> Drv<K> {
         let t = if n == 0 { 0 } else { n * MS - MS / 2 };
         self.pending_sample_budget = Some(n + 256);
         self.solve_ns(t, true)
+    }
+    /// A clock pacing under which a budget of `n * MS - MS / 2` still admits exactly `n`
+    /// iterations (one sampler call each) but the *fraction* of the budget that has elapsed at
+    /// iteration k differs from the uniform 1 ms per sample: `front` in (0,1) = the first sample
+    /// burns that fraction of the budget; `None` = back-loaded (the first n-1 samples share 20 %
+    /// of the budget, the last one crosses it).
+    pub fn pace_plan(n: u64, front: Option<f64>) -> Vec<u64> {
+        let t = (n * MS - MS / 2) as f64;
+        let n = n.max(2);
+        match front {
+            Some(f) => {
+                let t1 = (t * f).floor();
+                let rest = ((t - t1) / (n as f64 - 1.5)).ceil() as u64;
+                std::iter::once(t1 as u64).chain((1..n).map(|_| rest)).collect()
+            }
+            None => {
+                let small = (0.2 * t / (n as f64 - 1.0)).floor() as u64;
+                (0..n - 1).map(|_| small).chain(std::iter::once(t as u64)).collect()
+            }
+        }
     }
     /// Exactly one iteration: a budget of half a sampler tick, so that the first clock check
     /// (elapsed 0) passes and the second (one sample later) does not - whether the planner
